@@ -1,2 +1,550 @@
-/* ds_llist.h - TODO */
-static void ds_llist_case(vh_rng_t *rng) { (void)rng; vh_inconclusive("not-implemented"); }
+/* ds_llist.h - ares_llist_t (doubly linked list) vs. vectors of ids, over up to three lists.
+ *
+ * Value = {id}; ids are unique per case.  Every list has its own destructor state (A, B or none)
+ * that can be replaced; a node is subject to the destructor of the list it is in when it dies.
+ *
+ * Oracle after every operation, for every list:
+ *   forward walk (node_first/node_next) yields exactly the model vector, backward walk
+ *   (node_last/node_prev) its reverse, len agrees, every node reports the list as its parent and is
+ *   the node handle the model remembers for that id, first_val/last_val agree, node_idx(i) is the
+ *   i-th node and node_idx(len) is NULL; destructors ran exactly once per destroyed/cleared/replaced
+ *   value and never for claimed or moved ones.
+ */
+
+typedef struct {
+  uint32_t           id;
+  ares_llist_node_t *node;
+  int                list; /* index of the list it is in, -1 if none */
+} dsl_elem_t;
+
+#define DSL_MAXID  (DS_MAXOPS + 8)
+#define DSL_NLISTS 3
+#define DSL_MAXLEN 700
+static dsl_elem_t    dsl_pool[DSL_MAXID];
+static uint32_t      dsl_next_id;
+static uint32_t      dsl_model[DSL_NLISTS][DSL_MAXLEN + 40];
+static size_t        dsl_len[DSL_NLISTS];
+static int           dsl_curdes[DSL_NLISTS]; /* -1 none, 0 A, 1 B */
+static ares_llist_t *dsl_lists[DSL_NLISTS];
+static int           dsl_nlists;
+static uint8_t       dsl_des[2][DSL_MAXID];
+static uint8_t       dsl_expect[2][DSL_MAXID];
+
+static void dsl_destruct_a(void *p)
+{
+  dsl_elem_t *e = (dsl_elem_t *)p;
+  if (e >= dsl_pool && e < dsl_pool + DSL_MAXID && dsl_des[0][e->id] < 255) {
+    dsl_des[0][e->id]++;
+  }
+}
+
+static void dsl_destruct_b(void *p)
+{
+  dsl_elem_t *e = (dsl_elem_t *)p;
+  if (e >= dsl_pool && e < dsl_pool + DSL_MAXID && dsl_des[1][e->id] < 255) {
+    dsl_des[1][e->id]++;
+  }
+}
+
+static ares_llist_destructor_t dsl_desfn(int d)
+{
+  return d < 0 ? NULL : d == 0 ? dsl_destruct_a : dsl_destruct_b;
+}
+
+static void dsl_model_insert(int l, size_t idx, uint32_t id)
+{
+  memmove(&dsl_model[l][idx + 1], &dsl_model[l][idx], (dsl_len[l] - idx) * sizeof(uint32_t));
+  dsl_model[l][idx] = id;
+  dsl_len[l]++;
+  dsl_pool[id].list = l;
+}
+
+static size_t dsl_model_index(int l, uint32_t id)
+{
+  size_t i;
+  for (i = 0; i < dsl_len[l]; i++) {
+    if (dsl_model[l][i] == id) {
+      return i;
+    }
+  }
+  return (size_t)-1;
+}
+
+static void dsl_model_remove(int l, size_t idx)
+{
+  uint32_t id = dsl_model[l][idx];
+  memmove(&dsl_model[l][idx], &dsl_model[l][idx + 1], (dsl_len[l] - idx - 1) * sizeof(uint32_t));
+  dsl_len[l]--;
+  dsl_pool[id].list = -1;
+}
+
+static void dsl_expect_destruct(int l, uint32_t id)
+{
+  if (dsl_curdes[l] >= 0) {
+    dsl_expect[dsl_curdes[l]][id]++;
+  }
+}
+
+static const char *dsl_site = "init"; /* name of the operation just applied (part of the violation key) */
+
+static void dsl_viol(const char *rule, const char *fmt, ...)
+{
+  char    key[96];
+  char    buf[1024];
+  va_list ap;
+  va_start(ap, fmt);
+  vsnprintf(buf, sizeof(buf), fmt, ap);
+  va_end(ap);
+  snprintf(key, sizeof(key), "ds:llist:%s:%s", rule, dsl_site);
+  vh_violation(key, "%s", buf);
+}
+
+static int dsl_compare_one(int l, const char *after)
+{
+  ares_llist_t      *list = dsl_lists[l];
+  ares_llist_node_t *n;
+  size_t             k = 0;
+
+  if (ares_llist_len(list) != dsl_len[l]) {
+    dsl_viol("len", "after %s: list %d len=%zu model=%zu", after, l, ares_llist_len(list), dsl_len[l]);
+    return 0;
+  }
+  for (n = ares_llist_node_first(list); n != NULL; n = ares_llist_node_next(n), k++) {
+    const dsl_elem_t *e = (const dsl_elem_t *)ares_llist_node_val(n);
+    if (k >= dsl_len[l]) {
+      dsl_viol("order", "after %s: list %d forward walk longer than model (%zu)", after, l, dsl_len[l]);
+      return 0;
+    }
+    if (e == NULL || e < dsl_pool || e >= dsl_pool + DSL_MAXID || e->id != dsl_model[l][k]) {
+      dsl_viol("order", "after %s: list %d position %zu holds id %ld, model id %u (len %zu)", after, l, k,
+                   (e && e >= dsl_pool && e < dsl_pool + DSL_MAXID) ? (long)e->id : -1L, dsl_model[l][k], dsl_len[l]);
+      return 0;
+    }
+    if (ares_llist_node_parent(n) != list) {
+      dsl_viol("parent", "after %s: node of id %u in list %d reports another parent", after, e->id, l);
+      return 0;
+    }
+    if (e->node != n) {
+      dsl_viol("node-identity", "after %s: id %u reached through a node other than its handle", after, e->id);
+      return 0;
+    }
+  }
+  if (k != dsl_len[l]) {
+    dsl_viol("order", "after %s: list %d forward walk ends after %zu of %zu (next id %u unreachable)", after, l,
+                 k, dsl_len[l], dsl_model[l][k]);
+    return 0;
+  }
+  k = dsl_len[l];
+  for (n = ares_llist_node_last(list); n != NULL; n = ares_llist_node_prev(n)) {
+    const dsl_elem_t *e = (const dsl_elem_t *)ares_llist_node_val(n);
+    if (k == 0) {
+      dsl_viol("backward", "after %s: list %d backward walk longer than model (%zu)", after, l, dsl_len[l]);
+      return 0;
+    }
+    k--;
+    if (e == NULL || e < dsl_pool || e >= dsl_pool + DSL_MAXID || e->id != dsl_model[l][k]) {
+      dsl_viol("backward", "after %s: list %d backward walk differs from model at position %zu (model id %u)",
+                   after, l, k, dsl_model[l][k]);
+      return 0;
+    }
+  }
+  if (k != 0) {
+    dsl_viol("backward", "after %s: list %d backward walk from node_last stops with %zu elements unvisited",
+                 after, l, k);
+    return 0;
+  }
+  if (dsl_len[l] == 0) {
+    if (ares_llist_first_val(list) != NULL || ares_llist_last_val(list) != NULL || ares_llist_node_first(list) != NULL ||
+        ares_llist_node_last(list) != NULL) {
+      dsl_viol("firstlast", "after %s: list %d is empty in the model but first/last are non-NULL", after, l);
+      return 0;
+    }
+  } else {
+    if (ares_llist_first_val(list) != &dsl_pool[dsl_model[l][0]] ||
+        ares_llist_last_val(list) != &dsl_pool[dsl_model[l][dsl_len[l] - 1]]) {
+      dsl_viol("firstlast", "after %s: list %d first_val/last_val disagree with model", after, l);
+      return 0;
+    }
+  }
+  if (ares_llist_node_idx(list, dsl_len[l]) != NULL) {
+    vh_violation("ds:llist:idx-oob", "after %s: list %d node_idx(len) != NULL", after, l);
+    return 0;
+  }
+  return 1;
+}
+
+static int dsl_compare(const char *after)
+{
+  int l;
+  for (l = 0; l < dsl_nlists; l++) {
+    if (!dsl_compare_one(l, after)) {
+      return 0;
+    }
+  }
+  if (memcmp(dsl_des, dsl_expect, sizeof(dsl_des)) != 0) {
+    int      d;
+    uint32_t i;
+    for (d = 0; d < 2; d++) {
+      for (i = 0; i < dsl_next_id; i++) {
+        if (dsl_des[d][i] != dsl_expect[d][i]) {
+          vh_violation("ds:llist:destructor", "after %s: id %u destructed %u times by destructor %c, model %u", after, i,
+                       dsl_des[d][i], 'A' + d, dsl_expect[d][i]);
+          return 0;
+        }
+      }
+    }
+  }
+  return 1;
+}
+
+enum {
+  DSL_INS_FIRST = 1,
+  DSL_INS_LAST,
+  DSL_INS_BEFORE,
+  DSL_INS_AFTER,
+  DSL_IDX,
+  DSL_CLAIM,
+  DSL_DESTROY_NODE,
+  DSL_REPLACE,
+  DSL_CLEAR,
+  DSL_MV_FIRST,
+  DSL_MV_LAST,
+  DSL_REPLACE_DES,
+  DSL_DRAIN,
+  DSL_DESTROY
+};
+
+/* pick a random (list, index) of a live element; returns 0 if all lists are empty */
+static int dsl_pick(vh_rng_t *rng, int *l, size_t *idx)
+{
+  size_t total = 0, r;
+  int    k;
+  for (k = 0; k < dsl_nlists; k++) {
+    total += dsl_len[k];
+  }
+  if (total == 0) {
+    return 0;
+  }
+  r = vh_below(rng, (uint32_t)total);
+  for (k = 0; k < dsl_nlists; k++) {
+    if (r < dsl_len[k]) {
+      *l = k;
+      /* favour the ends: most pointer bugs live there */
+      if (vh_chance(rng, 1, 4)) {
+        r = vh_chance(rng, 1, 2) ? 0 : dsl_len[k] - 1;
+      }
+      *idx = r;
+      return 1;
+    }
+    r -= dsl_len[k];
+  }
+  return 0;
+}
+
+static void ds_llist_case(vh_rng_t *rng)
+{
+  int     nops = vh_chance(rng, 1, 8) ? vh_range(rng, 200, 1200) : vh_range(rng, 4, 120);
+  int     bias = vh_range(rng, 0, 3); /* 0 balanced, 1 grow, 2 move-heavy, 3 queue (insert last / remove first) */
+  /* half of the cases anchor inserts only on the head (before) / tail (after), which is the path
+   * that goes through insert_first/insert_last; the other half anchors anywhere */
+  int     anchor_ends_only = vh_chance(rng, 1, 2);
+  int     i, l;
+  static const char *const opname[] = { "?",       "insert_first",  "insert_last",    "insert_before",
+                                        "insert_after", "node_idx", "claim",          "node_destroy",
+                                        "replace", "clear",         "mvparent_first", "mvparent_last",
+                                        "replace_destructor",       "drain",          "destroy" };
+  char    what[96];
+  vh_sb_t sb = { 0 };
+
+  memset(dsl_des, 0, sizeof(dsl_des));
+  memset(dsl_expect, 0, sizeof(dsl_expect));
+  dsl_next_id = 0;
+  dsl_nlists  = vh_range(rng, 1, DSL_NLISTS);
+  for (l = 0; l < DSL_NLISTS; l++) {
+    dsl_len[l]   = 0;
+    dsl_lists[l] = NULL;
+  }
+  for (l = 0; l < dsl_nlists; l++) {
+    dsl_curdes[l] = vh_range(rng, -1, 1);
+    dsl_lists[l]  = ares_llist_create(dsl_desfn(dsl_curdes[l]));
+    if (dsl_lists[l] == NULL) {
+      vh_inconclusive("oom");
+      goto teardown;
+    }
+  }
+  if (vh_want_sample()) {
+    vh_sb_printf(&sb, "{\"container\":\"llist\",\"lists\":%d,\"bias\":%d,\"anchor_ends_only\":%d,\"ops\":[", dsl_nlists, bias,
+                 anchor_ends_only);
+  }
+
+  for (i = 0; i < nops && !vh_case_viol; i++) {
+    int    op;
+    int    r     = vh_range(rng, 0, 99);
+    int    ins_w = bias == 1 ? 60 : bias == 2 ? 30 : 42;
+    size_t idx   = 0;
+
+    if (r < ins_w) {
+      op = vh_range(rng, DSL_INS_FIRST, DSL_INS_AFTER);
+      if (bias == 3 && vh_chance(rng, 3, 4)) {
+        op = DSL_INS_LAST;
+      }
+    } else if (r < ins_w + 6) {
+      op = DSL_IDX;
+    } else if (r < 93) {
+      static const int oth[] = { DSL_CLAIM, DSL_DESTROY_NODE, DSL_REPLACE, DSL_MV_FIRST, DSL_MV_LAST };
+      op                     = oth[vh_below(rng, 5)];
+      if (bias == 2 && vh_chance(rng, 2, 3)) {
+        op = vh_chance(rng, 1, 2) ? DSL_MV_FIRST : DSL_MV_LAST;
+      }
+    } else if (r < 95) {
+      op = DSL_CLEAR;
+    } else if (r < 97) {
+      op = DSL_REPLACE_DES;
+    } else {
+      op = DSL_DRAIN;
+    }
+    if (dsl_next_id >= DS_MAXOPS - 4) {
+      break;
+    }
+    OP(op);
+    dsl_site = opname[op];
+    if (sb.b && i < 40) {
+      vh_sb_printf(&sb, "%s%d", i ? "," : "", op);
+    }
+    snprintf(what, sizeof(what), "op#%d %s lens=%zu/%zu/%zu", i, opname[op], dsl_len[0], dsl_len[1], dsl_len[2]);
+
+    switch (op) {
+      case DSL_INS_FIRST:
+      case DSL_INS_LAST:
+      case DSL_INS_BEFORE:
+      case DSL_INS_AFTER:
+        {
+          dsl_elem_t *e = &dsl_pool[dsl_next_id];
+          size_t      at;
+          e->id   = dsl_next_id;
+          e->node = NULL;
+          e->list = -1;
+          l       = (int)vh_below(rng, (uint32_t)dsl_nlists);
+          if (op == DSL_INS_BEFORE || op == DSL_INS_AFTER) {
+            if (!dsl_pick(rng, &l, &idx)) {
+              /* no node to anchor on: NULL anchor must be refused */
+              ares_llist_node_t *n =
+                op == DSL_INS_BEFORE ? ares_llist_insert_before(NULL, e) : ares_llist_insert_after(NULL, e);
+              if (n != NULL) {
+                vh_violation("ds:llist:insert-null-anchor", "%s: insert relative to a NULL node returned a node", what);
+              }
+              break;
+            }
+            if (anchor_ends_only) {
+              idx = op == DSL_INS_BEFORE ? 0 : dsl_len[l] - 1;
+            }
+            vh_count((op == DSL_INS_BEFORE ? idx == 0 : idx == dsl_len[l] - 1) ? "llist_insert_anchor_end"
+                                                                              : "llist_insert_anchor_mid");
+          }
+          if (dsl_len[l] >= DSL_MAXLEN) {
+            break;
+          }
+          switch (op) {
+            case DSL_INS_FIRST:
+              e->node = ares_llist_insert_first(dsl_lists[l], e);
+              at      = 0;
+              break;
+            case DSL_INS_LAST:
+              e->node = ares_llist_insert_last(dsl_lists[l], e);
+              at      = dsl_len[l];
+              break;
+            case DSL_INS_BEFORE:
+              e->node = ares_llist_insert_before(dsl_pool[dsl_model[l][idx]].node, e);
+              at      = idx;
+              break;
+            default:
+              e->node = ares_llist_insert_after(dsl_pool[dsl_model[l][idx]].node, e);
+              at      = idx + 1;
+              break;
+          }
+          if (e->node == NULL) {
+            vh_inconclusive("oom");
+            goto teardown;
+          }
+          if (ares_llist_node_val(e->node) != e) {
+            vh_violation("ds:llist:insert-value", "%s: node returned by insert carries another value", what);
+          }
+          dsl_model_insert(l, at, e->id);
+          dsl_next_id++;
+          vh_count("llist_insert");
+          break;
+        }
+      case DSL_IDX:
+        {
+          ares_llist_node_t *n;
+          l   = (int)vh_below(rng, (uint32_t)dsl_nlists);
+          idx = vh_below(rng, (uint32_t)dsl_len[l] + 3);
+          n   = ares_llist_node_idx(dsl_lists[l], idx);
+          if (idx >= dsl_len[l]) {
+            if (n != NULL) {
+              vh_violation("ds:llist:idx-oob", "%s: node_idx(%zu) on list of %zu is non-NULL", what, idx, dsl_len[l]);
+            }
+          } else if (n != dsl_pool[dsl_model[l][idx]].node) {
+            vh_violation("ds:llist:idx", "%s: node_idx(%zu) on list %d is not the node of id %u", what, idx, l,
+                         dsl_model[l][idx]);
+          }
+          vh_count("llist_idx");
+          break;
+        }
+      case DSL_CLAIM:
+      case DSL_DESTROY_NODE:
+        {
+          dsl_elem_t *e;
+          if (!dsl_pick(rng, &l, &idx)) {
+            if (ares_llist_node_claim(NULL) != NULL) {
+              vh_violation("ds:llist:claim-null", "%s: claim(NULL) returned a value", what);
+            }
+            ares_llist_node_destroy(NULL);
+            break;
+          }
+          e = &dsl_pool[dsl_model[l][idx]];
+          if (op == DSL_CLAIM) {
+            void *v = ares_llist_node_claim(e->node);
+            if (v != e) {
+              vh_violation("ds:llist:claim-value", "%s: claim of id %u returned another value", what, e->id);
+            }
+          } else {
+            ares_llist_node_destroy(e->node);
+            dsl_expect_destruct(l, e->id);
+          }
+          e->node = NULL;
+          dsl_model_remove(l, idx);
+          ds_removals++;
+          vh_count("llist_remove");
+          break;
+        }
+      case DSL_REPLACE:
+        {
+          dsl_elem_t *olde, *e;
+          if (!dsl_pick(rng, &l, &idx)) {
+            break;
+          }
+          olde    = &dsl_pool[dsl_model[l][idx]];
+          e       = &dsl_pool[dsl_next_id];
+          e->id   = dsl_next_id++;
+          e->node = olde->node;
+          e->list = l;
+          ares_llist_node_replace(olde->node, e);
+          dsl_expect_destruct(l, olde->id);
+          olde->node        = NULL;
+          olde->list        = -1;
+          dsl_model[l][idx] = e->id;
+          ds_removals++;
+          vh_count("llist_replace");
+          break;
+        }
+      case DSL_MV_FIRST:
+      case DSL_MV_LAST:
+        {
+          dsl_elem_t *e;
+          int         to;
+          if (!dsl_pick(rng, &l, &idx)) {
+            break;
+          }
+          to = (int)vh_below(rng, (uint32_t)dsl_nlists); /* may be the list it is already in */
+          if (to != l && dsl_len[to] >= DSL_MAXLEN) {
+            break;
+          }
+          e = &dsl_pool[dsl_model[l][idx]];
+          if (op == DSL_MV_FIRST) {
+            ares_llist_node_mvparent_first(e->node, dsl_lists[to]);
+          } else {
+            ares_llist_node_mvparent_last(e->node, dsl_lists[to]);
+          }
+          dsl_model_remove(l, idx);
+          dsl_model_insert(to, op == DSL_MV_FIRST ? 0 : dsl_len[to], e->id);
+          vh_count(to == l ? "llist_move_same" : "llist_move_other");
+          break;
+        }
+      case DSL_CLEAR:
+        {
+          size_t k;
+          l = (int)vh_below(rng, (uint32_t)dsl_nlists);
+          ares_llist_clear(dsl_lists[l]);
+          for (k = 0; k < dsl_len[l]; k++) {
+            dsl_expect_destruct(l, dsl_model[l][k]);
+            dsl_pool[dsl_model[l][k]].node = NULL;
+            dsl_pool[dsl_model[l][k]].list = -1;
+            ds_removals++;
+          }
+          dsl_len[l] = 0;
+          vh_count("llist_clear");
+          break;
+        }
+      case DSL_REPLACE_DES:
+        l             = (int)vh_below(rng, (uint32_t)dsl_nlists);
+        dsl_curdes[l] = vh_range(rng, -1, 1);
+        ares_llist_replace_destructor(dsl_lists[l], dsl_desfn(dsl_curdes[l]));
+        break;
+      case DSL_DRAIN:
+        {
+          /* remove from one end until (nearly) empty; later ops insert again */
+          int    front = vh_chance(rng, 1, 2);
+          size_t keep  = vh_below(rng, 3);
+          l            = (int)vh_below(rng, (uint32_t)dsl_nlists);
+          while (dsl_len[l] > keep) {
+            size_t             at = front ? 0 : dsl_len[l] - 1;
+            dsl_elem_t        *e  = &dsl_pool[dsl_model[l][at]];
+            ares_llist_node_t *n  = front ? ares_llist_node_first(dsl_lists[l]) : ares_llist_node_last(dsl_lists[l]);
+            if (n != e->node) {
+              vh_violation("ds:llist:firstlast", "%s: node_%s of list %d is not the node of id %u during drain", what,
+                           front ? "first" : "last", l, e->id);
+              break;
+            }
+            ares_llist_node_destroy(n);
+            dsl_expect_destruct(l, e->id);
+            e->node = NULL;
+            dsl_model_remove(l, at);
+            ds_removals++;
+          }
+          break;
+        }
+      default:
+        break;
+    }
+    if (!vh_case_viol) {
+      dsl_compare(what);
+      vh_count("llist_full_compare");
+    }
+  }
+
+teardown:
+  OP(DSL_DESTROY);
+  dsl_site = "destroy";
+  if (vh_case_viol) {
+    /* structure is suspect: abandon every node and list rather than walking them again */
+    uint32_t k;
+    for (k = 0; k < dsl_next_id; k++) {
+      ds_abandon(dsl_pool[k].node);
+    }
+    for (l = 0; l < dsl_nlists; l++) {
+      ds_abandon(dsl_lists[l]);
+      dsl_lists[l] = NULL;
+    }
+  }
+  for (l = 0; l < dsl_nlists; l++) {
+    size_t k;
+    if (dsl_lists[l] == NULL) {
+      continue;
+    }
+    for (k = 0; k < dsl_len[l]; k++) {
+      dsl_expect_destruct(l, dsl_model[l][k]);
+    }
+    ares_llist_destroy(dsl_lists[l]);
+    dsl_lists[l] = NULL;
+    dsl_len[l]   = 0;
+  }
+  if (!vh_case_viol && memcmp(dsl_des, dsl_expect, sizeof(dsl_des)) != 0) {
+    vh_violation("ds:llist:destructor", "after destroy: destructor calls differ from model");
+  }
+  if (sb.b) {
+    vh_sb_printf(&sb, "],\"nops\":%d}", ds_nops);
+    vh_sample(sb.b);
+    free(sb.b);
+  }
+}
